@@ -224,6 +224,46 @@ def _wordwise_alt(crate, I, b, tr, backs):
     """forms of the word-wise operators other than the zip chain; None when none applies"""
     p1, p2 = ("param", 1, I.names.get(1)), ("param", 2, I.names.get(2))
     N_ = ("gparam", "N")
+    # --- forwarding impl: the same operator of another receiver form (by value -> by reference, &x -> x.clone()),
+    #     applied to the same operands in order, result returned; the impl forwarded to is judged on its own
+    if not backs and I.final_states:
+        okf = True
+        tgt_name = None
+        for st in I.final_states:
+            evs = [e for e in st.event_list() if e.kind == "call" and e.extra.get("name") not in ("clone", "deref")]
+            ret = util.ret_term(st)
+            if len(evs) != 1:
+                okf = False
+                break
+            e = evs[0]
+            tdef = (e.fn.get("resolved") or e.fn).get("def")
+            tb = crate.by_key.get(tdef)
+            timp = crate.impl_of(tb) if tb is not None else None
+            same_trait = timp is not None and (timp.get("trait") or "").split("::")[-1] == tr and tb.key != b.key and "Bitset<" in str(timp.get("self_ty"))
+
+            def operand(a, p):
+                # p, &p, &*p, p.clone(), &p.clone() ... all denote the operand p
+                for _ in range(4):
+                    if a == p:
+                        return True
+                    if isinstance(a, tuple) and a and a[0] == "ref":
+                        a = a[1]
+                        continue
+                    if isinstance(a, tuple) and a and a[0] in ("deref", "constval"):
+                        a = a[1]
+                        continue
+                    if isinstance(a, tuple) and a and a[0] == "load":
+                        a = a[2]
+                        continue
+                    break
+                return a == p
+
+            nargs = 1 if tr == "Not" else 2
+            av = list(e.extra.get("argvals") or []) + [None, None]
+            okf = okf and same_trait and len([x for x in e.args]) >= nargs and (operand(e.args[0], p1) or av[0] == p1) and (nargs == 1 or operand(e.args[1], p2) or av[1] == p2) and ret == e.res
+            tgt_name = tb.path if tb is not None else None
+        if okf:
+            return True, "forwards to %s on the same operands" % tgt_name
     # --- binary operator as { let mut r = self.clone(); r op= rhs; r }
     if tr in ("BitAnd", "BitOr", "BitXor") and not backs:
         for st in I.final_states:
@@ -364,7 +404,7 @@ def check(col, prog, tier, profile, fixture=None):
             nb = b_
     if nb is None:
         raise Anchor("BitsIter::next not found")
-    I = util.analyser(util.private_helpers(crate, "BitsIter", exclude=[nb]))(nb)
+    I = util.analyser(util.private_helpers(crate, "BitsIter", exclude=[nb]) + [f for f in crate.bodies if not f.is_closure and f.kind == "Fn" and f.container is None and f.vis != "pub" and not util.self_recursive(f)])(nb)
     okdec = True
     nsh = 0
     for st in I.all_end_states():
